@@ -16,7 +16,7 @@ PYTHONPATH=/repo timeout 600 /venv/bin/python -W ignore $OUT/demo.py > /dev/null
 PYTHONPATH=$WT timeout 600 /venv/bin/python -W ignore $OUT/demo.py > $OUT/demo_modified.out 2>&1; echo "demo on changed tree: exit $?"
 tail -3 $OUT/demo_modified.out | cut -c1-300
 if [ "${SKIP_SUITE:-0}" != "1" ]; then
-  (cd $WT && PYTHONPATH=$WT timeout 5000 /venv/bin/python -m pytest -q -p no:cacheprovider --timeout=900 -q -n 6 2>&1 | tail -2) | sed 's/^/suite on changed tree: /'
+  (cd $WT && PYTHONPATH=$WT timeout 5000 /venv/bin/python -m pytest -q -p no:cacheprovider --timeout=900 -n 6 2>&1 | grep -E "passed|failed|error" | tail -1) | sed 's/^/suite on changed tree: /'
 fi
 rm -rf /var/tmp/seed-$ID; mkdir -p /var/tmp/seed-$ID; cp -r $WT/problog /var/tmp/seed-$ID/
 for c in $CHECKS; do
